@@ -7,7 +7,7 @@ history correspondence (Tie B): the same op lines run on the Lean driver and on 
 from vlib import histcheck
 
 MODULE = "TriompheModel.Props.C15"
-EXTRA = ["TriompheModel.Proofs.HistVal"]
+EXTRA = ["TriompheModel.Proofs.HistVal", "TriompheModel.Props.Monitor"]
 TAGS = ['C15']
 WEIGHTS = {'create': 20, 'writeSlot': 26, 'conv': 18, 'drop': 12, 'clone': 8, 'tryUnique': 6}
 
